@@ -1,4 +1,4 @@
-"""C10 - generic dispatch equals the specification and is unaffected by its cache (sequential part)."""
+"""C10 - generic dispatch equals the specification and is unaffected by its cache (sequential histories + held calls)."""
 import json, os
 
 from lib import common, gen, pipeline
@@ -64,6 +64,28 @@ def run(tier, seed):
         if why:
             rep.violation({"property": PROP, "stimulus": s, "observed": by_t[s["id"]], "reason": why},
                           f"{json.dumps([[o['op'], o['q'], o['s'], o['v']] for o in s['ops']])}: {why}")
+    # "adding, replacing or removing a method after earlier calls takes effect on the very next call" also when the
+    # redefinition arrives while a call is inside the generic function: the held-call histories of GenCache.tla (spec/Conc),
+    # with the call held at the yield hook and by the class hierarchy of its own argument
+    import subprocess
+    held = [{"id": i + 1, "kind": k, "n": 2, "m": 1, "cap": 0} for i, k in enumerate(["gencache", "gencache2"] * (2 if quick else 10))]
+    p = subprocess.run([vdrive, "c17stress"], input=("\n".join(json.dumps(x) for x in held) + "\n").encode(), capture_output=True,
+                       cwd=common.scratch(), timeout=600)
+    hev = [json.loads(l) for l in p.stdout.decode().split("\n") if l.strip()]
+    if p.returncode != 0 or len(hev) != len(held):
+        raise common.Infra(f"vdrive c17stress (held calls) exited {p.returncode}: {p.stderr.decode(errors='replace')[-1500:]}")
+    for i, e in enumerate(hev):
+        e["id"] = i + 1
+    r = common.run_tlc_with_files(os.path.join(common.VERIF, "spec", "Conc"), "ConcStress", "ConcStress.cfg", {"traces.ndjson": hev}, timeout=600)
+    found = list(common.emitted(r["out"], prefix="RESULT"))
+    if not found:
+        raise common.Infra(f"acceptor ConcStress produced no RESULT ({r['errors'][:2]})")
+    for bd in found[-1]["bad"]:
+        e = hev[bd["id"] - 1]
+        rep.violation({"property": PROP, "held_call": e, "law": bd["law"]},
+                      f"a method redefined while a call was held inside the generic function ({e['kind']}): status {e['st'][:100]} observed {e.get('gen')}; "
+                      "the redefinition must wait for the call and the next call must run the new method (GenCache.tla)")
+    rep.cov["held_calls"] = len(hev)
     rep.cov.update({"states": sum(g.get("distinct", 0) for g in gens), "transitions": sum(g["generated"] for g in gens),
                     "traces_validated_against_impl": len(stimuli), "evaluations": len(stimuli),
                     "distinct_nontrivial": len(shapes), "exhaustive": True,
